@@ -191,6 +191,10 @@ def lean_ops(cirq, circuit, order):
     return out
 
 
+def _or(x, default):
+    return default if x is NotImplemented else x
+
+
 def records_key(records):
     return tuple(sorted((k, tuple(tuple(int(x) for x in inst) for inst in v[0])) for k, v in records.items()))
 
@@ -233,23 +237,45 @@ def run(ctx: common.Run):
     for i in range(n):
         mode = rng.choice(['general'] * 4 + ['clifford'] * 2 + ['clifford-deep'] * 2 + ['qudit'])
         circuit, qs = gen_circuit(cirq, rng, clifford=mode.startswith('clifford'), qudits=(mode == 'qudit'), deep=(mode == 'clifford-deep'))
-        cases.append((mode, circuit, qs))
+        # the same circuit spelled through a key rewrite: the records are those of the plain circuit under the renamed keys
+        spell = rng.choice(['plain'] * 5 + ['keymap-subcircuit', 'rep-id', 'op-rekey', 'nested', 'path-prefix'])
+        keys = sorted(cirq.measurement_key_names(circuit))
+        if spell == 'keymap-subcircuit':
+            run_c, ren = cirq.Circuit(cirq.CircuitOperation(circuit.freeze(), measurement_key_map={k: 'r_' + k for k in keys})), (lambda k: 'r_' + k)
+        elif spell == 'rep-id':
+            run_c, ren = cirq.Circuit(cirq.CircuitOperation(circuit.freeze(), repetitions=1, repetition_ids=['a'], use_repetition_ids=True)), (lambda k: 'a:' + k)
+        elif spell == 'op-rekey':
+            run_c, ren = cirq.Circuit(_or(cirq.with_measurement_key_mapping(op, {k: 'r_' + k for k in keys}), op) for op in circuit.all_operations()), (lambda k: 'r_' + k)
+        elif spell == 'nested':
+            inner = cirq.CircuitOperation(circuit.freeze(), measurement_key_map={k: 'i_' + k for k in keys})
+            run_c, ren = cirq.Circuit(cirq.CircuitOperation(cirq.FrozenCircuit(inner), repetitions=1, repetition_ids=['b'], use_repetition_ids=True)), (lambda k: 'b:i_' + k)
+        elif spell == 'path-prefix':
+            run_c, ren = cirq.Circuit(_or(cirq.with_key_path_prefix(op, ('p',)), op) for op in circuit.all_operations()), (lambda k: 'p:' + k)
+        else:
+            run_c, ren = circuit, None
+        cases.append((mode if ren is None else mode + '+' + spell, circuit, qs, run_c, ren))
     # the F1 witness (terminal measurement with invert mask and asymmetric confusion map) always runs
     q = cirq.LineQubit(0)
     m = cirq.MeasurementGate(1, key='k', invert_mask=(True,), confusion_map={(0,): np.array([[1, 0], [0.5, 0.5]])}).on(q)
-    cases.insert(0, ('corpus-F1-terminal', cirq.Circuit(m), [q]))
-    cases.insert(1, ('corpus-F1-midcircuit', cirq.Circuit(m, cirq.I(q)), [q]))
+    cases.insert(0, ('corpus-F1-terminal', cirq.Circuit(m), [q], cirq.Circuit(m), None))
+    cases.insert(1, ('corpus-F1-midcircuit', cirq.Circuit(m, cirq.I(q)), [q], cirq.Circuit(m, cirq.I(q)), None))
     reqs = []
-    for mode, circuit, qs in cases:
+    for mode, circuit, qs, run_c, ren in cases:
         dims = [q.dimension for q in qs]
         init = [0j] * int(np.prod(dims))
         init[0] = 1
         reqs.append({'p': 'C02', 'op': 'dist', 'shape': dims, 'init': [common.c2j(z) for z in init], 'ops': lean_ops(cirq, circuit, qs)})
     outs = ctx.driver.ask(reqs)
-    for (mode, circuit, qs), out in zip(cases, outs):
+    for (mode, circuit, qs, run_c, ren), out in zip(cases, outs):
         want = lean_dist(out)
+        plain = circuit
+        if ren is not None:
+            want = {tuple(sorted((ren(k), v) for k, v in key)): pr for key, pr in want.items()}
+            ctx.count('spelling', mode.split('+')[1])
+            circuit = run_c
+        mode = mode.split('+')[0]
         ctx.count('mode', mode if mode.startswith('clifford') else mode.split('-')[0])
-        terminal = circuit.are_all_measurements_terminal()
+        terminal = plain.are_all_measurements_terminal()
         ctx.count('placement', 'terminal' if terminal else 'mid-circuit')
         ctx.case(repr(circuit), len(want) >= 2, sample={'circuit': str(circuit), 'branches': len(want)} if len(want) >= 3 and len(ctx.samples) < 3 else None)
         sims = {
@@ -282,15 +308,15 @@ def run(ctx: common.Run):
                     {'lines': [{'circuit': repr(circuit)}], 'impl_out': [sorted((repr(k), round(v, 9)) for k, v in got.items())],
                      'spec_out': [sorted((repr(k), round(v, 9)) for k, v in want.items())], 'theorem_or_correspondence': 'Spec.Circuit.run (runDist)'})
         # sampling never changes the state
-        if not any(isinstance(o, cirq.ClassicallyControlledOperation) for o in circuit.all_operations()):
-            pre = cirq.Circuit(o for o in circuit.all_operations() if not cirq.is_measurement(o))
+        if not any(isinstance(o, cirq.ClassicallyControlledOperation) for o in plain.all_operations()):
+            pre = cirq.Circuit(o for o in plain.all_operations() if not cirq.is_measurement(o))
             step = None
             for step in cirq.Simulator(seed=1, dtype=np.complex128).simulate_moment_steps(pre, qubit_order=qs):
                 pass
             if step is not None:
                 before = step.state_vector(copy=True)
                 step.sample(list(qs), repetitions=3)
-                mops = [o for o in circuit.all_operations() if isinstance(o.gate, cirq.MeasurementGate)][:1]
+                mops = [o for o in plain.all_operations() if isinstance(o.gate, cirq.MeasurementGate)][:1]
                 if mops:
                     step.sample_measurement_ops(mops, repetitions=2)
                 after = step.state_vector(copy=True)
